@@ -409,6 +409,22 @@ func (p *Prog) load(u *ssa.UnOp, onPath map[ssa.Value]bool, depth int) *Expr {
 			}
 		}
 	}
+	if ia, ok := u.X.(*ssa.IndexAddr); ok && root == nil {
+		// an element of a local slice literal of constants ([]T{a, b, c},
+		// typically ranged over): the constant, or the alternatives in order
+		if elems := sliceLitTable(ia.X); elems != nil {
+			if c, ok := ia.Index.(*ssa.Const); ok && c.Value != nil {
+				if k, ok := constant.Int64Val(c.Value); ok && k >= 0 && int(k) < len(elems) {
+					return p.expr(elems[k], onPath, depth+1)
+				}
+			}
+			e := &Expr{Op: "phi", Name: "table", Val: u}
+			for _, el := range elems {
+				e.Args = append(e.Args, p.expr(el, onPath, depth+1))
+			}
+			return e
+		}
+	}
 	if root == nil {
 		inner := p.expr(u.X, onPath, depth+1)
 		switch inner.Op {
@@ -855,6 +871,89 @@ func constTable(al *ssa.Alloc, ld *ssa.UnOp) []ssa.Value {
 			if r != ld {
 				return nil
 			}
+		default:
+			return nil
+		}
+	}
+	for _, e := range elems {
+		if e == nil {
+			return nil
+		}
+	}
+	return elems
+}
+
+// sliceLitTable: v is the whole-array slice of a local array that is filled,
+// in the block that creates it, by one store of a constant per element through
+// constant indexes, and afterwards only read (indexed, ranged over, measured).
+// It returns the element values in order.
+func sliceLitTable(v ssa.Value) []ssa.Value {
+	sl, ok := v.(*ssa.Slice)
+	if !ok || sl.Low != nil || sl.High != nil || sl.Max != nil {
+		return nil
+	}
+	al, ok := sl.X.(*ssa.Alloc)
+	if !ok {
+		return nil
+	}
+	at, ok := al.Type().Underlying().(*types.Pointer).Elem().Underlying().(*types.Array)
+	if !ok || at.Len() == 0 || at.Len() > 64 {
+		return nil
+	}
+	elems := make([]ssa.Value, at.Len())
+	readOnly := func(ia *ssa.IndexAddr) bool {
+		for _, r := range *ia.Referrers() {
+			switch u := r.(type) {
+			case *ssa.UnOp:
+				if u.Op != token.MUL {
+					return false
+				}
+			case *ssa.DebugRef:
+			default:
+				return false
+			}
+		}
+		return true
+	}
+	for _, ref := range *al.Referrers() {
+		switch r := ref.(type) {
+		case *ssa.IndexAddr:
+			c, ok := r.Index.(*ssa.Const)
+			if !ok || c.Value == nil {
+				return nil
+			}
+			k, ok := constant.Int64Val(c.Value)
+			if !ok || k < 0 || k >= at.Len() || len(*r.Referrers()) != 1 {
+				return nil
+			}
+			st, ok := (*r.Referrers())[0].(*ssa.Store)
+			if !ok || st.Addr != ssa.Value(r) || elems[k] != nil || st.Block() != al.Block() {
+				return nil
+			}
+			if _, isConst := st.Val.(*ssa.Const); !isConst {
+				return nil
+			}
+			elems[k] = st.Val
+		case *ssa.Slice:
+			if r.Low != nil || r.High != nil || r.Max != nil {
+				return nil
+			}
+			for _, r2 := range *r.Referrers() {
+				switch u := r2.(type) {
+				case *ssa.IndexAddr:
+					if !readOnly(u) {
+						return nil
+					}
+				case *ssa.Call:
+					if bi, ok := u.Call.Value.(*ssa.Builtin); !ok || bi.Name() != "len" && bi.Name() != "cap" {
+						return nil
+					}
+				case *ssa.Range, *ssa.DebugRef:
+				default:
+					return nil
+				}
+			}
+		case *ssa.DebugRef:
 		default:
 			return nil
 		}
